@@ -281,6 +281,8 @@ def run(tier, seed):
     print(f"[C11] {len(units)} operator/format units", flush=True)
     total = 0
     for status, res in run_pool("vx.checks.c11", "work", units):
+        if status == "skipped":
+            continue
         if status != "ok":
             run.report({"signature": {"kind": status}, "what": f"worker failed: {res}", "case": {}})
             continue
